@@ -29,6 +29,13 @@
    snapshot even when they were already released.  [fixed = true] is the repaired code
    (`if child.released { continue }`), [fixed = false] the code as found ([push_event_old]).
 
+   Optional callbacks.  Callback.Released and Callback.Check may be nil.  The code sets the
+   per-copy `released` flag whether or not Released exists (`releaseEvent`), and skips the check
+   when Check is nil.  The model's OReleased entry is the moment the flag is set and OCheck the
+   moment the check would run: without the callback they are internal events, projected out of the
+   observation by the driver (a buffer without Check = the oracle [fails_check] constantly false).
+   The snapshot loop's `if child.released` depends on the flag, not on the callback.
+
    Definitions only; proofs are in proofs/Buffer*.v. *)
 From Coq Require Import NArith List Bool.
 Import ListNotations.
